@@ -11,6 +11,11 @@ CLAIMED = {
          "Generated-input search: every generated conforming stream must come out as one row per value, in order, denoting the same value under the harness' own strict reader. Exploration is the right level: the property quantifies over an infinite input space and the oracle is a cheap round-trip, so tens of thousands (quick) to a million (thorough) structured cases per run plus a coverage-guided libFuzzer target give far more reach than examples, but no proof of absence.",
          "Trusted: the harness' strict reader (differentially tested against serde_json), Rust std's decimal->double conversion, proptest's generators. Known finding astral-escape-5hex is excluded by signature and counted.",
          "DESIGN.md §3 C01"),
+ "C02": ("exploration",
+         "property-based testing (proptest): generated values and expression results x style x --utf8-strings x row separator; validity predicate via independent strict reader + style-shape predicate on the token stream + cross-style metamorphic relation + feed-back fixpoint",
+         "Generated-input search against a validity predicate (not an expected text): each row must strict-parse to the value being output, be framed by the separator, have the whitespace shape of its style, the three styles must agree after deleting whitespace tokens, and jawk must reproduce its own output byte for byte. 100k (quick) to 1.5M (thorough) configurations; exploration level because the space of values x configurations is unbounded.",
+         "Trusted: strict reader; the pretty-shape predicate is deliberately lenient (any constant indentation unit, empty collections unconstrained). Known finding astral-escape-5hex excluded by signature (rewrite the 5/6-hex escape of exactly the astral characters of the expected value, then the whole predicate must pass).",
+         "DESIGN.md §3 C02"),
 }
 NOT_YET = "not claimed in this commit: the check is designed in DESIGN.md §3 but not yet built"
 
